@@ -189,7 +189,7 @@ func c14Groups(c *Ctx) {
 	image := map[pair]int64{}
 	bad := ""
 	for v := 0; v < 256; v++ {
-		in := bitdom.New(c.P.SSA, 64)
+		in := bitdom.New(c.P.SSA, c.wordBits())
 		ex, err := in.Call(enc, []bitdom.Val{bitdom.ConstBV(uint64(v), 8, false)})
 		if err != nil || ex.Panic || len(ex.Results) != 2 {
 			r.Undec("C14.group-tables.encode", c.P.Pos(enc.Pos()), "encodeGroup(%d) not foldable: %v", v, err)
@@ -213,7 +213,7 @@ func c14Groups(c *Ctx) {
 	bad = ""
 	for t1 := int64(-13); t1 <= 13; t1++ {
 		for t2 := int64(-13); t2 <= 13; t2++ {
-			in := bitdom.New(c.P.SSA, 64)
+			in := bitdom.New(c.P.SSA, c.wordBits())
 			ex, err := in.Call(dec, []bitdom.Val{bitdom.ConstBV(uint64(t1), 8, true), bitdom.ConstBV(uint64(t2), 8, true)})
 			if err != nil || ex.Panic || len(ex.Results) != 2 {
 				r.Undec("C14.group-tables.decode", c.P.Pos(dec.Pos()), "decodeGroup(%d,%d) not foldable: %v", t1, t2, err)
@@ -260,7 +260,7 @@ func c14B1t8(c *Ctx) {
 		}
 	}
 	for n := 0; n <= 4; n++ {
-		in := bitdom.New(c.P.SSA, 64)
+		in := bitdom.New(c.P.SSA, c.wordBits())
 		src := in.SymSlice("src", n, 8, 8, false)
 		// destination pre-filled with symbolic junk: every trit must be overwritten
 		dst := in.SymSlice("old", 8*n, 8, 8, false)
@@ -295,7 +295,7 @@ func c14B1t8(c *Ctx) {
 	bad = ""
 	for n := 0; n <= 3; n++ {
 		for rem := 0; rem < 8; rem += 3 {
-			in := bitdom.New(c.P.SSA, 64)
+			in := bitdom.New(c.P.SSA, c.wordBits())
 			src := in.SymSlice("t", 8*n+rem, 8, 8, false)
 			for _, e := range src.A.Elems {
 				e.(*bitdom.BV).Signed = true
